@@ -19,6 +19,8 @@ props.prop(
     not_decided='exactly-once per listener over schedules, per-listener ordering across re-entrant broadcasts, '
                 'weak-reference clean-up, double subscription',
     assumptions=['handlers are arbitrary callables (may broadcast, open blocks, subscribe)'])
+props.also('C07',
+           'that the priority parameter is replaced only under an identity test with None and the callback container stores every subscription it is given (or compares all three parts)')
 
 HUB = 'glue.core.hub.Hub'
 
